@@ -27,12 +27,12 @@ def lazy_facts(ctx, eff):
         loaded.add(spec_name)
         loaded.add(spec["base"])
     it = ctx.facts.interp()
-    for mod, call in _module_level_calls(prog, "schwifty.registry.manipulate"):
-        if call.args and isinstance(call.args[0], ast.Constant):
-            loaded.add(call.args[0].value)
-    for mod, call in _module_level_calls(prog, "schwifty.registry.get"):
-        if call.args and isinstance(call.args[0], ast.Constant):
-            loaded.add(call.args[0].value)
+    for mod, call, c in _module_level_calls(prog, "schwifty.registry.manipulate"):
+        if c.args and isinstance(c.args[0], str):
+            loaded.add(c.args[0])
+    for mod, call, c in _module_level_calls(prog, "schwifty.registry.get"):
+        if c.args and isinstance(c.args[0], str):
+            loaded.add(c.args[0])
     sites = []
     for f in eff.funcs:
         for n in eff.own_nodes(f):
